@@ -293,6 +293,67 @@ def ghash_pclmul_tail(chk):
     chk.floor('ghash_pclmul lengths', n, 8)
 
 
+def poly1305_block_decoding(chk):
+    """Poly1305 (RFC 8439 2.5): each 16-byte block is read as a little-endian number with bit 128 set, and added to the accumulator.
+    The three C implementations split that 129-bit number into limbs of 13, 26 or 44/44/42 bits with shifts and masks.  Decided in a
+    bit-provenance abstract domain (sa/bitprov.py: every bit of an SSA value is 0, 1 or "bit k of the block"): the value added to
+    limb i must be exactly bits [off_i, off_i + w_i) of the block, with the constant 1 at position 128 - every message bit is
+    authenticated once, at its own weight."""
+    from .. import bitprov
+    R = 'poly1305-block-decoding'
+    n = 0
+    for src, fn, offs, mode in (('src/symcipher/poly1305_ctmul32.c', 'poly1305_inner', [13 * k for k in range(10)], 'mem'),
+                                ('src/symcipher/poly1305_ctmul.c', 'poly1305_inner', [26 * k for k in range(5)], 'var'),
+                                ('src/symcipher/poly1305_ctmulq.c', 'poly1305_inner_small', [0, 44, 88], 'var')):
+        u = build.load_unit(src)
+        F = next((irf.Func(u, f) for f in u['functions'] if f['name'] == fn and f.get('blocks')), None)
+        if F is None:
+            raise AnalysisBroken('%s vanished from %s' % (fn, src))
+        bases = set(i['id'] for i in F.insts.values() if i['op'] == 'phi' and i['ty'] == 'i8*')
+        BP = bitprov.BitProv(F, lambda b: b['k'] == 'i' and b['v'] in bases)
+        limbs = {}
+        if mode == 'mem':
+            for i in F.insts.values():
+                if i['op'] != 'store' or i['ops'][0]['k'] != 'i':
+                    continue
+                b, off = F.addr_of(i['ops'][1])
+                ad = F.insts[i['ops'][0]['v']]
+                if b != {'k': 'a', 'v': 0} or off is None or ad['op'] != 'add':
+                    continue
+                X = [o for o in ad['ops'] if not (o['k'] == 'i' and F.insts[o['v']]['op'] == 'load' and F.addr_of(F.insts[o['v']]['ops'][0]) == (b, off))]
+                if len(X) == 1 and off // 4 not in limbs:
+                    limbs[off // 4] = (BP.ev(X[0], 32), i)
+        else:
+            names = {}
+            for b in F.blocks:
+                for i in b['insts']:
+                    if i['op'] == 'dbgvalue' and i['ops'][0]['k'] == 'i':
+                        names.setdefault(i['ops'][0]['v'], i['var'])
+            for i in F.insts.values():
+                nm = names.get(i['id'], '')
+                if i['op'] == 'add' and nm[:1] == 'a' and nm[1:].isdigit() and any(o['k'] == 'i' and F.insts[o['v']]['op'] == 'phi' for o in i['ops']):
+                    X = [o for o in i['ops'] if not (o['k'] == 'i' and F.insts[o['v']]['op'] == 'phi')]
+                    if len(X) == 1 and int(nm[1:]) not in limbs:
+                        limbs[int(nm[1:])] = (BP.ev(X[0], 64), i)
+        if sorted(limbs) != list(range(len(offs))):
+            raise AnalysisBroken('%s %s: accumulator additions found for limbs %s, expected %d limbs' % (src, fn, sorted(limbs), len(offs)))
+        for k, off in enumerate(offs):
+            w = (offs[k + 1] - off) if k + 1 < len(offs) else 129 - off
+            bits, at = limbs[k]
+            want = [('m', off + j) if off + j < 128 else 1 if off + j == 128 else 0 for j in range(w)] + [0] * (len(bits) - w)
+            n += 1
+            inst = '%s %s: limb %d receives bits %d..%d of the block%s' % (src.split('/')[-1], fn, k, off, min(off + w, 128) - 1, ' and the 2^128 bit' if off + w > 128 else '')
+            if bits[:len(want)] == want[:len(bits)]:
+                chk.ok(R, inst, F.where(at))
+            else:
+                j = next(q for q in range(min(len(bits), len(want))) if bits[q] != want[q])
+                def sh(x):
+                    return 'block bit %d' % x[1] if isinstance(x, tuple) else 'unknown' if x is None else 'constant %d' % x
+                chk.violation(R, inst, F.where(at), 'bit %d of the addend is %s, it must be %s: that block bit is not authenticated at its weight'
+                              % (j, sh(bits[j]), sh(want[j])), key='%s %s %d' % (R, src, k))
+    chk.floor('poly1305 limbs', n, 18)
+
+
 def run(tier):
     chk = report.Check('C12', tier,
                        'Constant tables of the symmetric primitives compared with values generated from their standards (FIPS 197 S-box, inverse '
@@ -399,6 +460,7 @@ def run(tier):
     counter_carry_chains(chk)
     ctr_counter_advance(chk)
     poly1305_wrap(chk)
+    poly1305_block_decoding(chk)
     des_ede_schedule(chk)
     ghash_pclmul_tail(chk)
     from .. import lints as _l
